@@ -42,6 +42,17 @@ pub fn run_next_op(registers: &mut Registers, mem: *mut MemoryAreas) -> Option<(
   if code_slice.len() < 1 {
     return None;
   }
+  // An instruction may extend past the end of the region it starts in (e.g. a
+  // three-byte instruction at 0x3FFF); fetch it through the bus in that case
+  let mut fetched = [0u8; 3];
+  let code_slice = if code_slice.len() < 3 {
+    for i in 0..3 {
+      fetched[i] = memory_read_byte(mem, (index + i) as u16);
+    }
+    &fetched[..]
+  } else {
+    code_slice
+  };
   let (next_op, length, cycles) = decode(code_slice);
   let should_break = next_op.is_block_end();
   let status = run_op(next_op, registers, mem, length as u32);
